@@ -141,11 +141,16 @@ def render_a(idx, kinds, err):
 # ----------------------------------------------------------------------------------------- (B)
 
 SUBPATS = ["1", "_", "0 | 2", "eq!(&1)", "ne!(&1)"]
+# sub-patterns over Option<u8>, among them refutable bare identifiers (`None`)
+SUBPATS_OPT = ["None", "Some(1)", "Some(_)", "_", "Some(0) | None"]
+OPT_DOMAIN = [("None", "None"), ("Some(0u8)", "Some(0)"), ("Some(1u8)", "Some(1)")]
 
 
 def accepts(sp, v):
     if sp == "_":
         return True
+    if sp in SUBPATS_OPT:
+        return {"None": v == "None", "Some(1)": v == "Some(1)", "Some(_)": v != "None", "Some(0) | None": v in ("Some(0)", "None")}[sp]
     if sp == "1":
         return v == 1
     if sp == "0 | 2":
@@ -173,6 +178,8 @@ def pinned_text(pats):
 
 
 def render_b(idx, pats, mode):
+    if any(p in SUBPATS_OPT and p != "_" for p in pats) or (isinstance(mode, tuple)):
+        return render_b_typed(idx, pats, mode)
     n = len(pats)
     params = ", ".join(f"a{p}: u8" for p in range(n))
     pat_text = ", ".join(pats)
@@ -229,6 +236,57 @@ def render_b(idx, pats, mode):
             let want: Vec<(usize, String, String)> = expected.iter().map(|(p, k, a)| (*p, k.to_string(), a.to_string())).collect();
             if entries != want {{
                 return Err(format!("arguments {{vals:?}} against ({pat_text}): the report must list exactly the rejected positions with their values {{want:?}}, it lists {{entries:?}}; message: {{msg}}"));
+            }}
+        }}
+        Ok(())
+    }}
+"""
+
+
+def render_b_typed(idx, pats, mode):
+    """Like render_b, with per-position parameter types (u8 or Option<u8>); `mode` = (mode, types)."""
+    mode, types = mode
+    n = len(pats)
+    params = ", ".join(f"a{p}: {'u8' if types[p] == 'u8' else 'Option<u8>'}" for p in range(n))
+    pat_text = ", ".join(pats)
+    text = pinned_text(pats)
+    doms = [[(f"{v}u8", str(v), v) for v in range(3)] if types[p] == "u8" else [(lit, shown, shown) for lit, shown in OPT_DOMAIN] for p in range(n)]
+    cases = []
+    for combo in itertools.product(*doms):
+        rej = [p for p in range(n) if not accepts(pats[p], combo[p][2])]
+        if not rej:
+            continue
+        exp = ", ".join(f'({p}, "{mismatch_kind(pats[p])}", "{combo[p][1]}")' for p in rej)
+        shown = ", ".join(c[1] for c in combo)
+        lits = ", ".join(c[0] for c in combo)
+        cases.append(f'("{shown}", Box::new(|u: &Unimock| u.f({lits})) as Box<dyn Fn(&Unimock) -> u32>, vec![{exp}])')
+    entry = "each_call" if mode == "unordered" else "next_call"
+    head = "No matching call patterns." if mode == "unordered" else "but inputs didn't match"
+    named = (f'if !msg.contains(&format!("Tr::f{text} at {{}}:{{}}", file!(), line)) {{ return Err(format!("pattern not named by source text and location (line {{line}}): {{msg}}")); }}' if text else 'if !msg.contains(&format!(" at {}:{}", file!(), line)) { return Err(format!("pattern location missing (line {line}): {msg}")); }') if mode == "ordered" else "let _ = line;"
+    return f"""    #[unimock(api=Mk)]
+    pub trait Tr {{
+        fn f(&self, {params}) -> u32;
+    }}
+    pub fn run() -> Result<(), String> {{
+        let cases: Vec<(&str, Box<dyn Fn(&Unimock) -> u32>, Vec<(usize, &str, &str)>)> = vec![
+            {(',' + chr(10) + '            ').join(cases)}
+        ];
+        for (shown, call_it, expected) in cases {{
+            let (clause, line) = (Mk::f.{entry}(matching!({pat_text})).returns(1u32), line!());
+            let u = Unimock::new(clause).no_verify_in_drop();
+            let msg = match vh::obs::catch(|| call_it(&u)) {{
+                Err(msg) => msg,
+                Ok(v) => return Err(format!("arguments ({{shown}}) must be rejected, the call returned {{v}}")),
+            }};
+            let call = format!("Tr::f({{shown}})");
+            if !msg.starts_with(&format!("{{call}}: ")) || !msg.contains("{head}") {{
+                return Err(format!("arguments ({{shown}}): message does not render the call as {{call}}: {{msg}}"));
+            }}
+            {named}
+            let entries = parse_mismatches(&msg);
+            let want: Vec<(usize, String, String)> = expected.iter().map(|(p, k, a)| (*p, k.to_string(), a.to_string())).collect();
+            if entries != want {{
+                return Err(format!("arguments ({{shown}}) against ({pat_text}): the report must list exactly the rejected positions with their values {{want:?}}, it lists {{entries:?}}; message: {{msg}}"));
             }}
         }}
         Ok(())
@@ -310,6 +368,26 @@ def instances(tier):
                 if mode == "unordered2" and (quick or n == 3):
                     continue
                 add(f"mismatch:({', '.join(pats)})/{mode}", render_b(len(insts), list(pats), mode), {"part": "B"})
+    # (B, typed) Option<u8> positions: refutable bare identifiers, tuple-struct and or-patterns
+    for pats in itertools.product(SUBPATS_OPT, repeat=2):
+        if all(p == "_" for p in pats):
+            continue
+        for mode in ("unordered", "ordered"):
+            add(f"mismatch-opt:({', '.join(pats)})/{mode}", render_b(len(insts), list(pats), (mode, ["opt", "opt"])), {"part": "B"})
+    for a in SUBPATS:
+        for b in SUBPATS_OPT:
+            if a == "_" and b == "_":
+                continue
+            for (pats, types) in (([a, b], ["u8", "opt"]), ([b, a], ["opt", "u8"])):
+                for mode in ("unordered", "ordered"):
+                    if quick and mode == "ordered" and types[0] == "opt":
+                        continue
+                    add(f"mismatch-mixed:({', '.join(pats)})/{mode}", render_b(len(insts), pats, (mode, types)), {"part": "B"})
+    if not quick:
+        for pats in itertools.product(SUBPATS_OPT, repeat=3):
+            if pats.count("_") != 1:
+                continue
+            add(f"mismatch-opt:({', '.join(pats)})/unordered", render_b(len(insts), list(pats), ("unordered", ["opt"] * 3)), {"part": "B"})
     return insts
 
 
